@@ -2,6 +2,7 @@ SPECIFICATION Spec
 CONSTANTS
   MaxHeader = 4
   MaxRows = 4
+  Part = "all"
   Bug = "none"
 INVARIANT TypeOK
 INVARIANT TableTotalExclusive
